@@ -141,6 +141,7 @@ class SdvValidatorFromDdvValidator(SdvValidator):
         self._hds = None
 
     def validate_pre_sds_if_applicable(self, environment: PathResolvingEnvironmentPreSds) -> Optional[TextRenderer]:
+        self._hds = environment.hds
         return self._get_validator(environment.symbols).validate_pre_sds_if_applicable(environment.hds)
 
     def validate_post_sds_if_applicable(self, environment: PathResolvingEnvironmentPostSds) -> Optional[TextRenderer]:
